@@ -11,6 +11,7 @@ import (
 	"os"
 	"path/filepath"
 	"reflect"
+	"regexp"
 	"sort"
 	"strconv"
 	"strings"
@@ -1340,6 +1341,8 @@ var verifZeroArg = map[string]bool{"internal": true, "ip_hash": true, "least_con
 	"proxy_protocol": true, "premium": true, "stub_status": true, "sticky": false}
 
 // exact / bounded arities of the directives the templates write most (NGINX documentation); min, max (-1 = any)
+var verifDirectiveName = regexp.MustCompile(`^[a-z][a-z0-9_]*$`)
+
 var verifArity = map[string][2]int{"proxy_hide_header": {1, 1}, "proxy_pass_header": {1, 1}, "proxy_set_header": {2, 2}, "grpc_set_header": {2, 2},
 	"proxy_pass": {1, 1}, "grpc_pass": {1, 1}, "set": {2, 2}, "add_header": {2, 3}, "return": {1, 2}, "rewrite": {2, 3}, "upstream": {1, 1}, "zone": {1, 2},
 	"server_name": {1, -1}, "listen": {1, -1}, "location": {1, 2}, "limit_req_zone": {3, 4}, "keyval_zone": {1, 5}, "keyval": {3, 3}, "map": {2, 2}, "match": {1, 1},
@@ -1400,6 +1403,12 @@ func verifAnalyse(files map[string]string) (malformed, arity []string, defs []ve
 				name := e.Args[0]
 				nargs := len(e.Args) - 1
 				inData := len(stack) > 0 && (stack[len(stack)-1] == "map" || stack[len(stack)-1] == "split_clients" || stack[len(stack)-1] == "match" || stack[len(stack)-1] == "types" || stack[len(stack)-1] == "geo")
+				if !inData && strings.Contains(name, "=") && !verifDirectiveName.MatchString(name) {
+					// every NGINX directive name is lower-case letters, digits and underscores: a first word with `=` in it
+					// (`health_checkinterval=5s`: a directive glued to its first parameter) is an unknown directive. Only `=` is
+					// looked for: files that are included inside a map block (the passthrough hosts) start their lines with host names
+					arity = append(arity, f+":"+verifClean(name)+"/badname")
+				}
 				if !inData || e.Kind == "open" {
 					if nargs == 0 && !verifZeroArg[name] && e.Kind == "dir" {
 						arity = append(arity, f+":"+verifClean(name)+"/0")
@@ -1559,6 +1568,11 @@ func VerifWf(kv map[string]string) string {
 	verifDepsMode = ""
 	if err != nil {
 		return "setup-error"
+	}
+	if d := os.Getenv("VERIF_DUMP_FILES"); d != "" {
+		for n, c := range files {
+			_ = os.WriteFile(filepath.Join(d, strings.ReplaceAll(n, "/", "_")), []byte(c), 0o600)
+		}
 	}
 	malformed, arity, defs := verifAnalyse(files)
 	dups := verifDuplicates(defs, map[string]bool{"upstream": true, "zone": true, "limit_req_zone": true, "keyval_zone": true, "cache_zone": true, "match": true,
